@@ -395,6 +395,35 @@ func Check() *common.Check {
 				}
 			}
 			_ = noEOF3
+			// (3b) length ladder: every lexeme length 0..maxLen in error-reporting positions (hint / suggestion
+			// code works on the text of the offending token), as SQL text and as hand-made tokens
+			maxLen := 160
+			if e.Thorough() {
+				maxLen = 600
+			}
+			for n := 0; n <= maxLen; n++ {
+				w := strings.Repeat("a", n)
+				k := strings.Repeat("SELECT", n/6+1)[:n]
+				texts := []string{w, w + " * FROM t", "SELECT * FROM t " + w + " " + w, "SELECT  + w + ", "SELECT '" + w + "' '" + w + "'", "SELECT \"" + w + "\" \"" + w + "\"",
+					"SELECT 1" + strings.Repeat("0", n) + " " + w, k + " a FROM t", "SELECT a FROM t WHERE " + k, "SELECT a " + k + " t", "SELECT f(" + w + " " + w + ")", "CREATE TABLE " + w + " (" + w + " " + w + " " + w + ")"}
+				for i, text := range texts {
+					text := text
+					e.Do(fmt.Sprintf("ladder|%d|%d", i, n), func(c *common.Ctx) { c.Input(text); onText(c, text, false) })
+				}
+				for _, tt := range []models.TokenType{models.TokenTypeEOF, models.TokenTypeUnknown, models.TokenTypeIdentifier, models.TokenTypeString, models.TokenTypeNumber, models.TokenTypeRParen, models.TokenTypeWhere, models.TokenTypeKeyword} {
+					for _, eof := range []bool{true} {
+						toks := []token.Token{{Type: models.TokenTypeSelect, Literal: "SELECT"}, {Type: tt, Literal: w}}
+						if eof {
+							toks = append(toks, token.Token{Type: models.TokenTypeEOF})
+						}
+						key := fmt.Sprintf("ladder-tok|%v|%d|eof=%v", tt, n, eof)
+						e.Do(key, func(c *common.Ctx) { c.Input(key); onTokens(c, toks); c.Outcome("tokens") })
+						toks2 := append([]token.Token{{Type: tt, Literal: w}}, toks...)
+						key2 := key + "|lead"
+						e.Do(key2, func(c *common.Ctx) { c.Input(key2); onTokens(c, toks2); c.Outcome("tokens") })
+					}
+				}
+			}
 			// (4) prefixes and single-token corruptions of generated statements
 			seen := map[string]bool{}
 			var stmts []sqlgen.S
